@@ -87,16 +87,22 @@ class Spec:
         return VFS.excluded.get(_abs(path), False)
 
 
-class _PathShim:
-    join = staticmethod(pp.join)
-    basename = staticmethod(pp.basename)
-    normpath = staticmethod(pp.normpath)
+class _PathShimCls:
+    """pure path algebra is the real posixpath; everything that looks at the file system is virtual (or unsupported)"""
+    PURE = ("join", "basename", "normpath", "dirname", "split", "splitext", "isabs", "commonprefix", "commonpath", "sep", "curdir", "pardir", "extsep")
     relpath = staticmethod(lambda p, start=None: pp.relpath(_abs(p), _abs(start if start is not None else ".")))
-    dirname = staticmethod(pp.dirname)
     abspath = staticmethod(_abs)
     isdir = staticmethod(v_isdir)
     isfile = staticmethod(v_isfile)
     exists = staticmethod(v_exists)
+
+    def __getattr__(self, n):
+        if n in self.PURE:
+            return getattr(pp, n)
+        raise AttributeError("os.path.%s is not part of the virtual file system model" % n)
+
+
+_PathShim = _PathShimCls()
 
 
 class _OsShim:
